@@ -1,5 +1,6 @@
 """C18 - allele lookups agree with the VCF in every loading mode (structural clauses)."""
 import ast
+import itertools
 
 from ..core import rule
 from ..index import AnalysisError, dotted, src, walk_no_nested, names_in
@@ -68,16 +69,100 @@ def r1(ctx):
     a = [x.arg for x in g.args.args]
     entry = f'self.locationToAllele[{a[1]}][{a[2]}][{a[3]}]'
     ok = True
+    keys = [a[1], a[2], a[3]]
+
+    def absval(e, env, present):
+        """abstract value of an expression over the nested table: ('p', d) = the object d levels down (0 = the table itself), 'NONE', or UNK"""
+        if isinstance(e, ast.Constant):
+            return 'NONE' if e.value is None else UNK
+        if isinstance(e, ast.Name):
+            return env.get(e.id, UNK)
+        if src(e) == 'self.locationToAllele':
+            return ('p', 0)
+        if isinstance(e, ast.Subscript):
+            v = absval(e.value, env, present)
+            if isinstance(v, tuple) and v[1] < 3 and src(e.slice) == keys[v[1]]:
+                return ('p', v[1] + 1) if present[v[1]] else 'KEYERROR'
+            return UNK
+        if isinstance(e, ast.Call) and isinstance(e.func, ast.Attribute) and e.func.attr == 'get' and 1 <= len(e.args) <= 2:
+            v = absval(e.func.value, env, present)
+            if isinstance(v, tuple) and v[1] < 3 and src(e.args[0]) == keys[v[1]]:
+                if present[v[1]]:
+                    return ('p', v[1] + 1)
+                return 'NONE' if len(e.args) == 1 else absval(e.args[1], env, present)
+            return UNK
+        if isinstance(e, ast.IfExp):
+            t = truth(e.test, env, present)
+            return UNK if t is UNK else absval(e.body if t else e.orelse, env, present)
+        return UNK
+
+    def truth(t, env, present):
+        if isinstance(t, ast.BoolOp):
+            vals = [truth(v, env, present) for v in t.values]
+            if isinstance(t.op, ast.And):
+                # left-to-right: a decided False stops the evaluation
+                for v in vals:
+                    if v is False:
+                        return False
+                    if v is UNK:
+                        return UNK
+                return True
+            for v in vals:
+                if v is True:
+                    return True
+                if v is UNK:
+                    return UNK
+            return False
+        if isinstance(t, ast.UnaryOp) and isinstance(t.op, ast.Not):
+            v = truth(t.operand, env, present)
+            return UNK if v is UNK else (not v)
+        if isinstance(t, ast.Compare) and len(t.ops) == 1:
+            op, l_, r_ = t.ops[0], t.left, t.comparators[0]
+            if isinstance(op, (ast.Is, ast.IsNot)) and isinstance(r_, ast.Constant) and r_.value is None:
+                v = absval(l_, env, present)
+                if v is UNK:
+                    return UNK
+                return (v == 'NONE') == isinstance(op, ast.Is)
+            if isinstance(op, (ast.In, ast.NotIn)):
+                v = absval(r_, env, present)
+                if isinstance(v, tuple) and v[1] < 3 and src(l_) == keys[v[1]]:
+                    return present[v[1]] == isinstance(op, ast.In)
+                return UNK
+        if src(t) == 'self.lazyLoad':
+            return False
+        v = absval(t, env, present)
+        if v == 'NONE':
+            return False
+        if isinstance(v, tuple):
+            return UNK          # an empty mapping is falsy: undecided
+        return UNK
+    cfg = CFG(g.body, exceptions=False)
     for c_, p_, b_ in itertools.product((True, False), repeat=3):
-        rs = explore(g.body, mk_atoms({'self.lazyLoad': False, f'{a[1]} in self.locationToAllele': c_, f'{a[2]} in self.locationToAllele[{a[1]}]': p_,
-                                       f'{a[3]} in self.locationToAllele[{a[1]}][{a[2]}]': b_}))
-        rets = {(src(r['stmt'].value) if r['kind'] == 'return' and r['stmt'] is not None and r['stmt'].value is not None else r['kind']) for r in rs}
-        want = {entry} if (c_ and p_ and b_) else {'None'}
-        if c_ and not p_:
-            want = {'None'}
-        # combinations that cannot occur (position known without contig) need not be decided
         if (not c_ and (p_ or b_)) or (not p_ and b_):
-            continue
+            continue        # combinations that cannot occur (position known without contig)
+        present = (c_, p_, b_)
+
+        def step(state, node, label, present=present):
+            env = state
+            if node.kind == 'test' and label in ('true', 'false') and isinstance(node.ast, ast.If):
+                v = truth(node.ast.test, env, present)
+                if v is not UNK and bool(v) != (label == 'true'):
+                    return None
+            if node.kind == 'stmt' and isinstance(node.ast, ast.Assign) and len(node.ast.targets) == 1 and isinstance(node.ast.targets[0], ast.Name):
+                env = dict(env)
+                env[node.ast.targets[0].id] = absval(node.ast.value, env, present)
+            return env
+        rets = set()
+        for p__, env in cfg.paths(state0={}, step=step):
+            last = cfg.nodes[p__[-1][0]]
+            kind = last.info
+            if kind == 'return':
+                rstmt = [cfg.nodes[nid].ast for nid, _l in p__ if isinstance(cfg.nodes[nid].ast, ast.Return)][-1]
+                rets.add(absval(rstmt.value, env, present) if rstmt.value is not None else 'NONE')
+            else:
+                rets.add('NONE' if kind == 'fall' else kind)
+        want = {('p', 3)} if (c_ and p_ and b_) else {'NONE'}
+        ctx.counters['abstract_cases'] += 1
         ok = ok and rets == want
     ctx.emit('C18-R1', ok, ALLELES, g, f'getAllelesAt returns locationToAllele[chrom][pos][base] or None when contig / position / base are absent', key='lookup-returns')
 
@@ -142,15 +227,25 @@ def r3(ctx):
     relevant = set(names_in(rc[0].args[0]))
     cache_names = set(relevant)
     key_fields = {n.attr for n in ast.walk(rc[0].args[0]) if isinstance(n, ast.Attribute) and isinstance(n.value, ast.Name) and n.value.id == 'self'}
+    MUT = {'append', 'extend', 'add', 'insert', 'update'}
+
+    def as_update(st_):
+        """`X.append(v)` and friends on a local are an augmented assignment of X (its content then also depends on v)"""
+        if isinstance(st_, ast.Expr) and isinstance(st_.value, ast.Call) and isinstance(st_.value.func, ast.Attribute) and st_.value.func.attr in MUT \
+                and isinstance(st_.value.func.value, ast.Name):
+            return ast.copy_location(ast.AugAssign(target=ast.Name(id=st_.value.func.value.id, ctx=ast.Store()), op=ast.Add(),
+                                                   value=ast.Tuple(elts=list(st_.value.args) + [k.value for k in st_.value.keywords], ctx=ast.Load())), st_)
+        return st_
     changed = True
     while changed:
         changed = False
-        for s in walk_no_nested(f):
+        for s0 in walk_no_nested(f):
+            s = as_update(s0)
             if isinstance(s, (ast.Assign, ast.AugAssign)):
                 tg = s.targets[0] if isinstance(s, ast.Assign) else s.target
                 if isinstance(tg, ast.Name) and tg.id in relevant:
                     exprs = [s.value]
-                    p_ = mod.parent.get(s)
+                    p_ = mod.parent.get(s0)
                     while p_ is not None and p_ is not f:
                         if isinstance(p_, ast.If):
                             exprs.append(p_.test)
@@ -204,13 +299,14 @@ def r3(ctx):
             return None
         if node.kind == 'test' and label in ('true', 'false'):
             ctl = ctl | frozenset(attrs_and_names(node.ast.test))
-        if node.kind == 'stmt' and isinstance(node.ast, (ast.Assign, ast.AugAssign)):
-            tg = node.ast.targets[0] if isinstance(node.ast, ast.Assign) else node.ast.target
+        nast = as_update(node.ast) if node.kind == 'stmt' else node.ast
+        if node.kind == 'stmt' and isinstance(nast, (ast.Assign, ast.AugAssign)):
+            tg = nast.targets[0] if isinstance(nast, ast.Assign) else nast.target
             if isinstance(tg, ast.Name):
                 new = set(ctl)
-                for x in attrs_and_names(node.ast.value):
+                for x in attrs_and_names(nast.value):
                     new |= deps.get(x, frozenset({x}))
-                if isinstance(node.ast, ast.AugAssign):
+                if isinstance(nast, ast.AugAssign):
                     new |= deps.get(tg.id, frozenset())
                 deps = dict(deps)
                 deps[tg.id] = frozenset(new)
@@ -253,8 +349,18 @@ def r4(ctx):
         and sample_split and sample_split[0].args[0].value == sep_w
     ctx.emit('C18-R4', ok, ALLELES, wr[0], f'writer: {nvals} tab separated fields, samples joined by {sep_w!r}; reader: unpacks {len(unpack[0].targets[0].elts) if unpack else 0} fields, '
              f'samples split on {sample_split[0].args[0].value if sample_split else None!r}', key='cache-format')
-    ints = any(isinstance(s, ast.Assign) and src(s) == 'position = int(position)' for s in walk_no_nested(r))
     st = [s for s in walk_no_nested(r) if isinstance(s, ast.Assign) and src(s.targets[0]).startswith('self.locationToAllele[')]
+    # the position key of the stored entry is int(<first field of the record>)
+    ints = False
+    if len(st) == 1 and unpack:
+        tgt = st[0].targets[0]
+        key_pos = tgt.value.slice if isinstance(tgt, ast.Subscript) and isinstance(tgt.value, ast.Subscript) else None
+        first_field = src(unpack[0].targets[0].elts[0])
+        if isinstance(key_pos, ast.Name):
+            defs = [a_ for a_ in walk_no_nested(r) if isinstance(a_, ast.Assign) and len(a_.targets) == 1 and src(a_.targets[0]) == key_pos.id]
+            ints = bool(defs) and all(isinstance(a_.value, ast.Call) and src(a_.value.func) == 'int' and len(a_.value.args) == 1 and src(a_.value.args[0]) == first_field for a_ in defs)
+        elif key_pos is not None:
+            ints = src(key_pos) == f'int({first_field})'
     ok = ints and len(st) == 1 and 'set(' in src(st[0].value)
     ctx.emit('C18-R4', ok, ALLELES, r, 'reader restores integer positions and sample sets', key='cache-types')
     # atomic write
@@ -311,7 +417,7 @@ def r5(ctx):
         ctx.emit('C18-R5', not bad, ALLELES, sets_true[0], f'flag `{name}` is reset to False in every record before it is read' if not bad else
                  f'flag `{name}` is set inside the record loop but not re-initialised per record before its read at line {bad[0].lineno}: once set it leaks into all later records of the fetch',
                  key=f'per-record-flag:{name}', what=f'fetchChromosome: flag {name} leaks between VCF records')
-    ctx.need('C18-R5', n, 3, 'per-record flags')
+    ctx.need('C18-R5', n, 1, 'per-record flags')
     # every allele of every considered genotype is examined: the loops over the samples / the alleles of a sample have no early exit
     gl = [l for l in walk_no_nested(loop) if isinstance(l, ast.For) and ('.alleles' in src(l.iter) or '.samples' in src(l.iter))]
     ctx.need('C18-R5', len(gl), 2, 'genotype loops (samples, alleles of a sample)')
@@ -329,7 +435,7 @@ def r5(ctx):
             for nb in (0, 1, 2):
                 for before in (True, False):
                     at = lambda e, mono=mono, nb=nb: (nb if src(e) == 'len(bases_to_alleles)' else (mono if src(e) == 'monomorphic' else UNK))
-                    rs = explore([dec[0]], at, env0={'bad': before})
+                    rs = explore([dec[0]], at, env0={'bad': before, 'used': nb > 0})     # `used`: a base was registered, i.e. the mapping is non-empty
                     got = {r['consts'].get('bad', 'unknown') for r in rs}
                     want = False if (mono and nb > 0) else (True if nb < 2 else before)
                     if got != {want}:
@@ -351,17 +457,54 @@ def r5(ctx):
             ok = it == 'bases_to_alleles' and elt == f'(rec.ref, {tv}) in self.ignore_conversions'
             detail = f'conversion filter tests `{elt}` for {tv} in {it}'
     ctx.emit('C18-R5', ok, ALLELES, conv[0] if conv else loop, detail + ('' if ok else ' (expected: the bases carried by the selected samples, i.e. bases_to_alleles)'), key='conversion-filter')
-    from ..domains import check_pred
-
-    def is_store_guard(t):
-        try:
-            n_, bad_ = check_pred(t, lambda e: e['used'] and not e['bad'], symbols=[], extra_bools=['used', 'bad'])
-            return not bad_
-        except AnalysisError:
-            return False
-    store = [s for s in walk_no_nested(loop) if isinstance(s, ast.If) and names_in(s.test) == {'used', 'bad'} and is_store_guard(s.test)]
-    ok = len(store) == 1 and any(isinstance(x, ast.Assign) and src(x.value) == 'bases_to_alleles' and 'rec.pos - 1' in src(x.targets[0]).replace('\n', ' ') for x in store[0].body)
-    ctx.emit('C18-R5', ok, ALLELES, store[0] if store else loop, 'a site is stored (0-based) iff used and not bad', key='store-guard')
+    # the store: after the informativeness decision, the site is stored iff it is used, not bad, and not excluded by the conversion filter -
+    # decided by following the statements that execute after the decision (rest of its block, then the rest of each enclosing block up to
+    # the record loop) for every valuation of (used, bad, filter active, filter hits)
+    mod = ctx.ix.module(ALLELES)
+    okstore = False
+    detail = 'informativeness decision not found'
+    if len(dec) == 1:
+        cont = []
+        node = dec[0]
+        while True:
+            par = mod.parent.get(node)
+            if par is None:
+                break
+            for fld in ('body', 'orelse', 'finalbody'):
+                blk = getattr(par, fld, None)
+                if isinstance(blk, list) and any(x is node for x in blk):
+                    cont.extend(blk[[i for i, x in enumerate(blk) if x is node][0] + 1:])
+            if par is loop:
+                break
+            node = par
+        problems = []
+        ncase = 0
+        for u, b_, ign, conv in itertools.product((True, False), repeat=4):
+            def at(e, u=u, ign=ign, conv=conv):
+                t = src(e)
+                if t in ('0 < len(bases_to_alleles)', 'len(bases_to_alleles) != 0', 'bases_to_alleles'):
+                    return u
+                if t == 'len(bases_to_alleles) == 0':
+                    return not u
+                if t == 'self.ignore_conversions is not None':
+                    return ign
+                if t == 'self.ignore_conversions is None':
+                    return not ign
+                if isinstance(e, ast.Call) and isinstance(e.func, ast.Name) and e.func.id == 'any' and 'ignore_conversions' in t:
+                    return conv
+                return UNK
+            rs = [r for r in explore(cont, at, env0={'used': u, 'bad': b_}) if r['kind'] in ('fall', 'continue')]
+            ncase += 1
+            stored = {any(t.startswith('self.locationToAllele[') and v == 'bases_to_alleles' for t, v, k in r['stores']) for r in rs}
+            want = u and not b_ and not (ign and conv)
+            if stored != {want}:
+                problems.append(((u, b_, ign, conv), sorted(stored), want))
+        ctx.counters['abstract_cases'] += ncase
+        okstore = not problems
+        detail = f'a site is stored iff used and not bad and not excluded by the conversion filter ({ncase} valuations)' if okstore else \
+            f'store decision differs at (used, bad, filter active, filter hits)={problems[0][0]}: stored {problems[0][1]}, expected {problems[0][2]}'
+    zero_based = any(isinstance(x, ast.Assign) and src(x.value) == 'bases_to_alleles' and 'rec.pos - 1' in src(x.targets[0]).replace('\n', ' ') for x in walk_no_nested(loop))
+    ctx.emit('C18-R5', okstore and zero_based, ALLELES, dec[0] if dec else loop, detail + ('' if zero_based else '; the position key is not rec.pos - 1'), key='store-guard')
     # sample selection
     sel = [s for s in walk_no_nested(loop) if isinstance(s, ast.If) and src(s.test) == 'self.select_samples is not None and sample not in self.select_samples' and isinstance(s.body[0], ast.Continue)]
     ctx.emit('C18-R5', len(sel) == 1, ALLELES, sel[0] if sel else loop, 'unselected samples are skipped', key='sample-selection', nontrivial=False)
